@@ -184,6 +184,7 @@ class Ctx(object):
             if n["k"] == "VarDecl" and n.get("c"):
                 self.locals_init[n["var"]] = n["c"][0]
         self.subst = {}
+        self.ptrs = set()
         self.assigned = set()
         for n in facts.fn_nodes(f):
             if n["k"] in ("BinaryOperator", "CompoundAssignOperator") and n.get("op", "").endswith("=") and n.get("op") not in ("==", "!=", "<=", ">="):
@@ -233,6 +234,8 @@ class Fx(object):
                 return ctx.alias[var]
             if "v" in n:
                 return str(int(n["v"]))
+            if n.get("parm") and var in ctx.forms and ctx.forms[var].is_const():
+                return str(ctx.forms[var].k)
             if var in ctx.locals_init and var not in ctx.assigned:
                 t = facts.ty(ctx.f, n) or {}
                 # const locals are substituted by their initialiser
@@ -346,6 +349,13 @@ class Fx(object):
             t = self.txt(ctx, e)
             if t.endswith(".size()") and getattr(self, "_env", None) is not None and ("len:" + t[:-7]) in self._env:
                 return self._env["len:" + t[:-7]]
+            if k == "CXXMemberCallExpr" and e.get("cname") == "pointer" and len(c) == 1 and getattr(self, "_env", None) is not None and ctx.ptrs:
+                me = c[0]
+                while me["k"] in ("ParenExpr", "ImplicitCastExpr"):
+                    me = me["c"][0]
+                ob = strip(me["c"][0]) if me.get("c") else None
+                if ob is not None and ob["k"] == "DeclRefExpr" and ctx.streams.get(ob.get("var")) == "out":
+                    return self._env.get("s:out", Form()) + self._env.get("t:out", Form())
             if k == "CXXMemberCallExpr" and e.get("cname") == "size" and len(c) == 1 and getattr(self, "_env", None) is not None:
                 me = c[0]
                 while me["k"] in ("ParenExpr", "ImplicitCastExpr"):
@@ -710,6 +720,8 @@ class Fx(object):
             k = x["k"]
             if k == "CXXMemberCallExpr" and x.get("cname") in ("write_serialization", "resize"):
                 return True
+            if ctx.ptrs and k in ("CallExpr", "CXXMemberCallExpr") and x.get("cname") in ("memset", "memcpy", "memmove", "serialize"):
+                return True
             if k == "CXXMemberCallExpr" and len(x["c"]) >= 3 and len(ctx.f["params"]) >= 2 and \
                     [strip(a).get("var") for a in x["c"][1:3]] == [p["var"] for p in ctx.f["params"][:2]]:
                 return True
@@ -726,6 +738,9 @@ class Fx(object):
             if k in ("CXXMemberCallExpr", "CallExpr") and self.stream_args(ctx, x, env):
                 return True
             if k == "VarDecl" and self.is_stream_type(facts.tyi(ctx.f, x.get("t"))):
+                return True
+            if k == "VarDecl" and x.get("c") and (facts.tyi(ctx.f, x.get("t")) or {}).get("k") == "ptr" and ctx.f["params"] and \
+                    any(y["k"] == "DeclRefExpr" and y.get("var") == ctx.f["params"][0]["var"] for y in facts.walk(x["c"][0])):
                 return True
         return False
 
@@ -849,6 +864,31 @@ class Fx(object):
             f = self.fexpr(ctx, env, v["c"][0])
             env["v:" + var] = f
             return
+        if t and t.get("k") == "ptr" and v.get("c") and ctx.f["params"]:
+            i0 = facts.strip_all(v["c"][0])
+            if i0["k"] == "CXXMemberCallExpr" and i0.get("cname") == "pointer":
+                me = i0["c"][0]
+                while me["k"] in ("ParenExpr", "ImplicitCastExpr"):
+                    me = me["c"][0]
+                ob = strip(me["c"][0]) if me.get("c") else None
+                if ob is not None and ob.get("var") in ctx.streams and ctx.streams[ob["var"]] == "out":
+                    ctx.ptrs.add(var)
+                    ctx.ptrs.add(ctx.f["params"][0]["var"])
+                    env.setdefault("v:" + ctx.f["params"][0]["var"], Form())
+                    env["v:" + var] = env.get("s:out", Form()) + env.get("t:out", Form())
+                    return
+        if t and t.get("k") == "ptr" and v.get("c") and ctx.f["params"] and \
+                any(x["k"] == "DeclRefExpr" and (x.get("var") == ctx.f["params"][0]["var"] or ("v:" + str(x.get("var"))) in env and str(x.get("var")) in ctx.ptrs)
+                    for x in facts.walk(v["c"][0])):
+            # a raw pointer into the output buffer: tracked as an offset from the buffer parameter
+            ctx.ptrs.add(var)
+            ctx.ptrs.add(ctx.f["params"][0]["var"])
+            env.setdefault("v:" + ctx.f["params"][0]["var"], Form())
+            try:
+                env["v:" + var] = self.fexpr(ctx, env, v["c"][0])
+            except Opaque:
+                env["v:" + var] = atom("?ptr")
+            return
         if t and t.get("k") == "ref" and v.get("c"):
             ctx.alias[var] = self.txt(ctx, v["c"][0])
             # reference to a stream?
@@ -924,7 +964,36 @@ class Fx(object):
         go(e)
         return out
 
+    def raw_effect(self, ctx, n, env):
+        """memset / memcpy / x.serialize(ptr, n) through a tracked raw pointer"""
+        cn = n.get("cname")
+        args = n["c"][1:]
+        if not ctx.ptrs or not args:
+            return
+        if cn in ("memset", "memcpy", "memmove") and len(args) == 3:
+            dest, ln = args[0], args[2]
+        elif cn == "serialize" and len(args) == 2 and n["k"] == "CXXMemberCallExpr":
+            dest, ln = args[0], args[1]
+        else:
+            return
+        if not any(x["k"] == "DeclRefExpr" and x.get("var") in ctx.ptrs for x in facts.walk(dest)):
+            return
+        try:
+            d = self.fexpr(ctx, env, dest)
+            if cn == "serialize":
+                # x.serialize(ptr, bound) writes exactly x.size() bytes (R1: serialize-vs-size); the bound only limits its cursor
+                me = n["c"][0]
+                while me["k"] in ("ParenExpr", "ImplicitCastExpr"):
+                    me = me["c"][0]
+                l = atom(self.txt(ctx, me["c"][0]) + ".size()") if me.get("c") else None
+            else:
+                l = self.fexpr(ctx, env, ln)
+        except Opaque:
+            d = l = None
+        self.rawlog.append((cn, d, l, list(self.condstack), n, ctx))
+
     def call_effect(self, ctx, n, env):
+        self.raw_effect(ctx, n, env)
         if n["k"] == "CXXMemberCallExpr":
             me = n["c"][0]
             while me["k"] in ("ParenExpr", "ImplicitCastExpr"):
@@ -1311,6 +1380,11 @@ class Cells(object):
 
     def assignments(self, limit=60000):
         import itertools
+        import re
+        for t in list(self.terms):
+            mm = re.search(r"% (\d+)\)$", t)
+            if mm and int(mm.group(1)) <= 16:
+                self.terms[t] = set(range(int(mm.group(1))))
         for t, lo in self.lower.items():
             if t in self.terms:
                 self.terms[t] = set(v for v in self.terms[t] if v >= lo) | set([lo, lo + 1])
